@@ -65,6 +65,10 @@ fn variants(thorough: bool) -> Vec<Variant> {
         }
         v.push(Variant { prob: warp(&base(Base::Lin3), *w), span: 2.0, scales: lin_scales.clone() });
     }
+    // fast rotations (three turns at angular frequency 400 and 4e4): |y'| is 400 (4e4) times |y|, whatever the error scale is
+    // built from must be the state
+    v.push(Variant { prob: base(Base::Spiral(0.0, 400.0)), span: 0.05, scales: vec![1.0] });
+    v.push(Variant { prob: base(Base::Spiral(0.0, 4.0e4)), span: 5e-4, scales: vec![1.0] });
     v
 }
 
